@@ -117,11 +117,20 @@ func (r Ring) DivRoundByLastModulus(p0, p1 Poly) {
 	// Center by (p-1)/2
 	pHalf := (r.SubRings[level].Modulus - 1) >> 1
 
-	r.SubRings[level].AddScalar(p0.Coeffs[level], pHalf, p0.Coeffs[level])
+	// The centered last row goes to the (unused) last row of p1 when p1 has one, else to a temporary row:
+	// p0 is left untouched (it used to be centered in place) unless p0 and p1 are the same polynomial.
+	var last []uint64
+	if len(p1.Coeffs) > level {
+		last = p1.Coeffs[level]
+	} else {
+		last = make([]uint64, r.N())
+	}
+
+	r.SubRings[level].AddScalar(p0.Coeffs[level], pHalf, last)
 
 	for i, s := range r.SubRings[:level] {
-		s.AddScalarLazyThenNegTwoModulusLazy(p0.Coeffs[i], s.Modulus-BRedAdd(pHalf, s.Modulus, s.BRedConstant), p0.Coeffs[i])
-		s.AddLazyThenMulScalarMontgomery(p0.Coeffs[level], p0.Coeffs[i], r.RescaleConstants[level-1][i], p1.Coeffs[i])
+		s.AddScalarLazyThenNegTwoModulusLazy(p0.Coeffs[i], s.Modulus-BRedAdd(pHalf, s.Modulus, s.BRedConstant), p1.Coeffs[i])
+		s.AddLazyThenMulScalarMontgomery(last, p1.Coeffs[i], r.RescaleConstants[level-1][i], p1.Coeffs[i])
 	}
 }
 
